@@ -105,7 +105,7 @@ def run(rep, work, tier, seed, props, replay=None):
     if replay is None or "catalog_index" in (replay or {}):
         info = run_impl_parallel("ops_impl.py", [{"list": True}])[0]
         idx = list(range(info["n"])) if replay is None else [replay["catalog_index"]]
-        variants = [0, 1, 2, 3] if tier == "thorough" else [0, 1, 3]
+        variants = [0, 1, 2, 3, 4] if tier == "thorough" else [0, 1, 3, 4]
         seeds = [seed, seed + 1] if tier == "thorough" else [seed]
         tasks = [{"index": i, "mode": "alias", "variant": v, "seed": sd} for v in variants for sd in seeds for i in idx]
         parts = [tasks[i::16] for i in range(16)]
@@ -135,7 +135,7 @@ def run(rep, work, tier, seed, props, replay=None):
     rep.coverage.update({
         "evaluations": len(builders) + len(lres) + len(sweep),
         "operation_sweep": {"entries_x_variants": len(sweep), "skipped": sweep_skipped, "messages": sweep_bad,
-                            "variants": "0: tensor operands + owning seed; 1: first operand a caller-owned raw array, tensors built with copy=False, non-owning seed; 2: float32; 3: default seed on a 0-d terminal (its gradient must not be shared between unrelated backward() calls)"},
+                            "variants": "0: tensor operands + owning seed; 1: first operand a caller-owned raw array, tensors built with copy=False, non-owning seed; 2: float32; 3: default seed on a 0-d terminal (its gradient must not be shared between unrelated backward() calls); 4: memory guarding off"},
         "distinct_nontrivial": len(nt),
         "rule": "family histories (views, reads, in-place updates, index arrays) or plain DAG programs, then either a terminal + backward() or backward(seed) on an intermediate with an owning or non-owning seed; "
                 "plus 12 nnet layers/losses x 2 dtypes; non-trivial = >= 1 caller-owned array and >= 2 operations; distinct = distinct statement list",
